@@ -64,6 +64,41 @@ class HandlerInfo:
                 if any((x in replicated) or x.startswith("<call:") for x in w)]
 
 
+def cursor_per_record(ctx, rule, cls):
+    """apply_logs advances the read cursor by exactly one per record, before that record is dispatched: a record of this worker that is
+    rejected (its handler raises at the issuer) then leaves the cursor right behind it, and the rest of the batch is replayed by the next
+    sync. A cursor advanced per batch skips those records for ever - e.g. another worker's claim of a queued trial, which this worker then
+    claims again (shared by C06 R06.4 and C04 R04.4)."""
+    f = cls.methods["apply_logs"]
+    g = CFG(f.node, name=f.qualname)
+    heads = [n for n in g.stmt_nodes() if n.kind == "iter"]
+    ctx.require(len(heads) == 1, f"{rule}: apply_logs must contain exactly one loop over the records")
+    head = heads[0]
+    body0 = [m for k, m in head.succ if k == "loop"]
+    inc = [n for n in g.stmt_nodes() if n.kind == "stmt" and isinstance(n.ast, ast.AugAssign)
+           and self_attr(n.ast.target) == "log_number_read" and isinstance(n.ast.op, ast.Add)
+           and isinstance(n.ast.value, ast.Constant) and n.ast.value.value == 1]
+    other_cursor_writes = [n for n in g.stmt_nodes() if n not in inc and any(
+        isinstance(x, ast.Attribute) and self_attr(x) == "log_number_read" and isinstance(x.ctx, ast.Store) for x in n.walk())]
+    disp = [n for n in g.stmt_nodes() for c in n.calls() if (self_attr(c.func) or "").startswith("_apply_")]
+    ctx.floor(rule, "dispatch_arms", len(disp), 10, exact=True)
+    r = g.reachable(body0, avoid_nodes=[head] + inc)
+    bad = [d for d in disp if d in r]
+    ctx.check(bool(inc) and not bad and not other_cursor_writes, rule, f.short, "cursor-before-dispatch",
+              message="apply_logs can dispatch a record before log_number_read was advanced past it: a raising "
+                      "record would be applied again on the next sync",
+              how="`self.log_number_read += 1` precedes every _apply_* call within the iteration",
+              witness=g.witness(bad, guards=[head] + inc, src=body0[0]) if bad else None)
+    # exactly one increment per iteration
+    two = False
+    for i in inc:
+        r2 = g.reachable([m for k, m in i.succ if k == "n"], avoid_nodes=[head])
+        if any(j in r2 for j in inc):
+            two = True
+    ctx.check(not two, rule, f.short, "single-increment", message="cursor incremented twice for one record", how="one increment per iteration")
+    return f, g, head, body0
+
+
 def run(ctx):
     p: Program = ctx.program
     ctx.explanation = (
@@ -238,6 +273,20 @@ def run(ctx):
                                   f"`{norm(t.expr)[:60]}`: " + "; ".join(f"`{norm(b.ast)[:60]}`" for b in bad[:3]),
                           how="nodes reachable from exactly one branch write only worker-local fields",
                           where=where(f, bad[0].ast) if bad else None)
+                # the two sides of an issuer test share the record's fate: if one side can end the handler without any replicated write
+                # (return, or the issuer's raise) the other side can too, and vice versa - otherwise the issuer drops a record that every
+                # other worker applies (or the other way round)
+                fate = {}
+                for k_, m_ in t.succ:
+                    if k_ in ("t", "f"):
+                        r_ = g.reachable([m_], avoid_nodes=rw, edge_ok=NORMAL)
+                        fate[k_] = (g.exit in r_) or (m_ is g.exit) or any(x.kind == "stmt" and isinstance(x.ast, ast.Raise) for x in r_)
+                if len(fate) == 2 and rw:
+                    ctx.check(fate["t"] == fate["f"], "R06.1", f.short, f"same-fate-on-both-sides-of-issuer-test:{norm(t.expr)[:40]}",
+                              message=f"{m}: on one side of `{norm(t.expr)[:60]}` the handler can finish without writing replicated state, on the other side it cannot: "
+                                      f"the issuer of a record and the workers that merely replay it end up with different state (e.g. the loser of a race for a WAITING "
+                                      f"trial skips its own rejected claim while everybody else applies it and overwrites datetime_start)",
+                              how="both branch targets agree on whether an exit is reachable without passing a replicated write", where=where(f, t.ast))
                 # raises in the region must be on the issuer side
                 issuer_side = ex_a if pol.get("t") is True else ex_b
                 other_side = ex_b if pol.get("t") is True else ex_a
@@ -379,33 +428,7 @@ def run(ctx):
 
     # ------------------------------------------------------------ R06.4 cursor discipline
     ctx.rule("R06.4", "apply_logs: cursor incremented before dispatch in each iteration; loop locals do not cross iterations")
-    f = cls.methods["apply_logs"]
-    g = CFG(f.node, name=f.qualname)
-    heads = [n for n in g.stmt_nodes() if n.kind == "iter"]
-    ctx.require(len(heads) == 1, "R06.4: apply_logs must contain exactly one loop over the records")
-    head = heads[0]
-    body0 = [m for k, m in head.succ if k == "loop"]
-    inc = [n for n in g.stmt_nodes() if n.kind == "stmt" and isinstance(n.ast, ast.AugAssign)
-           and self_attr(n.ast.target) == "log_number_read" and isinstance(n.ast.op, ast.Add)
-           and isinstance(n.ast.value, ast.Constant) and n.ast.value.value == 1]
-    other_cursor_writes = [n for n in g.stmt_nodes() if n not in inc and any(
-        isinstance(x, ast.Attribute) and self_attr(x) == "log_number_read" and isinstance(x.ctx, ast.Store) for x in n.walk())]
-    disp = [n for n in g.stmt_nodes() for c in n.calls() if (self_attr(c.func) or "").startswith("_apply_")]
-    ctx.floor("R06.4", "dispatch_arms", len(disp), 10, exact=True)
-    r = g.reachable(body0, avoid_nodes=[head] + inc)
-    bad = [d for d in disp if d in r]
-    ctx.check(bool(inc) and not bad and not other_cursor_writes, "R06.4", f.short, "cursor-before-dispatch",
-              message="apply_logs can dispatch a record before log_number_read was advanced past it: a raising "
-                      "record would be applied again on the next sync",
-              how="`self.log_number_read += 1` precedes every _apply_* call within the iteration",
-              witness=g.witness(bad, guards=[head] + inc, src=body0[0]) if bad else None)
-    # exactly one increment per iteration
-    two = False
-    for i in inc:
-        r2 = g.reachable([m for k, m in i.succ if k == "n"], avoid_nodes=[head])
-        if any(j in r2 for j in inc):
-            two = True
-    ctx.check(not two, "R06.4", f.short, "single-increment", message="cursor incremented twice for one record", how="one increment per iteration")
+    f, g, head, body0 = cursor_per_record(ctx, "R06.4", cls)
     loop: ast.For = head.ast
     assigned = {}
     for n in g.stmt_nodes():
@@ -616,8 +639,44 @@ def run(ctx):
               how="within an iteration the loop head is unreachable without passing the append (except on the `last number` edge)",
               witness=g.witness([head], edges=last_edges, src=body0[0], edge_ok=NORMAL6) if head in r else None)
     _r06_9(ctx, p, jcls)
+    _r06_10(ctx, p)
     # the storage side: the cursor advances by one per record handed over
     ctx.note("R06.8_scope", "file backend: consecutive numbering is enumerate()-driven and guarded by R07.4/R07.5")
+
+
+def _r06_10(ctx, p):
+    """The Redis journal (records, counter, snapshot) lives under the backend's own key prefix: a key that does not carry the prefix
+    belongs to another journal on the same server."""
+    ctx.rule("R06.10", "JournalRedisBackend: every key handed to a Redis command is built from self._prefix (directly or through a key helper that is): "
+             "a snapshot or record read from a bare key is another journal's state, not a function of this journal's log")
+    cls = p.cls("optuna.storages.journal._redis.JournalRedisBackend")
+    ctx.require(cls is not None, "R06.10: JournalRedisBackend vanished")
+    helpers = set()
+    for mname, f in cls.methods.items():
+        rets = [n.value for n in own_nodes(f.node) if isinstance(n, ast.Return) and n.value is not None]
+        if rets and all("self._prefix" in norm(r) for r in rets) and mname.startswith("_key"):
+            helpers.add(mname)
+    n_keys = 0
+    for mname, f in sorted(cls.methods.items()):
+        defs = single_defs(f.node)
+        for c in own_nodes(f.node):
+            if not (isinstance(c, ast.Call) and isinstance(c.func, ast.Attribute) and norm(c.func.value) == "self._redis" and c.args):
+                continue
+            if c.func.attr == "eval":
+                # Lua script: the prefix travels as an ARGV element
+                ok = any(norm(a) == "self._prefix" for a in c.args[2:])
+                key = "<script ARGV>"
+            else:
+                from sa.expr import resolve as _res
+                k = _res(c.args[0], defs)
+                key = norm(k)
+                ok = "self._prefix" in key or any(isinstance(x, ast.Call) and self_attr(x.func) in helpers for x in ast.walk(k))
+            n_keys += 1
+            ctx.check(ok, "R06.10", f.short, f"key-carries-own-prefix:{c.func.attr}",
+                      message=f"JournalRedisBackend.{mname} passes the key `{key[:50]}` to redis.{c.func.attr}: it does not contain self._prefix, so with a non-empty prefix "
+                              f"the value read / written belongs to another journal on the same server (a worker restoring such a snapshot replays its own tail on top "
+                              f"of foreign studies and a foreign read position)", how="f'{self._prefix}:...' or a _key_* helper built from it", where=where(f, c))
+    ctx.floor("R06.10", "redis_commands", n_keys, 7)
 
 
 def _r06_9(ctx, p, jcls):
